@@ -100,7 +100,10 @@ def _spec(start, parent):
 
         raw = Path(parent).parent / "raw_u16.fits"
         if not raw.exists():
-            fits.PrimaryHDU(np.arange(6, dtype=np.uint16).reshape(2, 3) + 1000).writeto(raw)  # (astropy stores it with BZERO = 32768)
+            # (starts of one history may be prepared concurrently: write to a private name, then rename atomically)
+            mine = raw.with_name(f"raw_u16_{os.getpid()}_{threading.get_ident()}.fits")
+            fits.PrimaryHDU(np.arange(6, dtype=np.uint16).reshape(2, 3) + 1000).writeto(mine, overwrite=True)  # (astropy stores it with BZERO = 32768)
+            os.replace(mine, raw)
         extra["photon_collection"].insert(0, {"name": "raw", "func": "pyxel.models.photon_collection.load_image", "enabled": True,
                                               "arguments": {"image_file": str(raw), "include_header": True}})
     pipe = echo_pipeline(extra)
